@@ -49,19 +49,19 @@ type runCfg struct {
 }
 
 type outcome struct {
-	calls        int
-	startedCmd   bool
-	cmdDesc      string
-	succeeded    bool
-	completed    bool
-	crashed      bool
-	faultFired   bool
-	faultCaller  string
-	violations   int
-	cmdReplace   int
-	cmdCands     int
-	reason       string
-	startErr     bool
+	calls       int
+	startedCmd  bool
+	cmdDesc     string
+	succeeded   bool
+	completed   bool
+	crashed     bool
+	faultFired  bool
+	faultCaller string
+	violations  int
+	cmdReplace  int
+	cmdCands    int
+	reason      string
+	startErr    bool
 }
 
 func initialized(e *world.Env, name string) (exists, init bool) {
@@ -374,6 +374,61 @@ func execute(r *mon.Report, rc runCfg) outcome {
 		e.Cluster.Synced(e.Ctx)
 	}
 	if cmd == nil {
+		// no command entered the queue. If a fault or crash hit while one was being started (markDisrupted taints the node
+		// and then patches the NodeClaim: two writes), whatever was half-done must be rolled back as well: after 5
+		// fault-free reconciles no node outside the queue may still carry the disruption taint / condition
+		if crashed || out.faultFired {
+			pools := &v1.NodePoolList{}
+			_ = e.API.Raw.List(context.Background(), pools)
+			for i := range pools.Items {
+				np := &pools.Items[i]
+				np.Spec.Disruption.Budgets = []v1.Budget{{Nodes: "0"}}
+				e.Apply(np)
+			}
+			for i := 0; i < 5; i++ {
+				for _, name := range e.ClaimNames() {
+					nc := &v1.NodeClaim{}
+					if e.API.Raw.Get(context.Background(), types.NamespacedName{Name: name}, nc) == nil && nc.Status.ProviderID == "" {
+						_, _ = e.ReconcileClaim(name)
+						_, _ = e.ReconcileClaim(name)
+					}
+				}
+				_ = e.SyncState()
+				e.Cluster.Synced(e.Ctx)
+				if _, _, panicked, pv, stack := d.Round(); panicked {
+					out.violations++
+					r.Violate("panic-in-disruption-reconcile", fmt.Sprintf("%v", pv), caseDesc, stack)
+				}
+				e.Clock.Step(10 * time.Second)
+			}
+			_ = e.SyncState()
+			r.Inc("aborted_start_rollback_checks")
+			for _, name := range e.ClaimNames() {
+				nc := &v1.NodeClaim{}
+				if e.API.Raw.Get(context.Background(), types.NamespacedName{Name: name}, nc) != nil || !nc.DeletionTimestamp.IsZero() || d.Queue.HasAny(nc.Status.ProviderID) {
+					continue
+				}
+				var problems []string
+				if node := d.NodeOfClaim(nc); node != nil {
+					for _, t := range node.Spec.Taints {
+						if t.Key == v1.DisruptedTaintKey {
+							problems = append(problems, "disruption taint still on the node")
+						}
+					}
+				}
+				if nc.StatusConditions().Get(v1.ConditionTypeDisruptionReason) != nil {
+					problems = append(problems, "DisruptionReason condition still on the NodeClaim")
+				}
+				if len(problems) > 0 {
+					out.violations++
+					key := "aborted-start-not-rolled-back"
+					if crashed {
+						key = "restart-during-start-leaves-node-out-of-service"
+					}
+					r.Violate(key+":"+strings.Fields(problems[0])[0], fmt.Sprintf("node of NodeClaim %s is in no command, yet after 5 fault-free reconciles: %s", nc.Name, strings.Join(problems, "; ")), caseDesc, nil)
+				}
+			}
+		}
 		return out
 	}
 	out.completed = len(d.Queue.GetCommands()) == 0 || crashed
@@ -507,7 +562,7 @@ var _ = corev1.Pod{}
 func init() {
 	reg.Register(&reg.Prop{
 		ID: "C08", Level: "fault_enumeration",
-		Rule: "each case = one scenario (cluster grown through the real pipeline; drift with pods / underutilised / mixed so that replace and delete commands arise) + orchestration script (queue reconciles interleaved in PRNG order with the replacements being launched, registered and initialised by the real lifecycle controller and the kubelet actor; modes: normal, a replacement vanishes, replacements stall past the retry deadline, replacements initialise only after the deadline). The scenario runs once fault-free to count K API + provider calls from the round that starts the command to the end of the script, then once per k (stride 2 in quick) and error kind {500, 409, (404), crash+restart}. Monitors: candidate NodeClaim deletes by the orchestration queue judged synchronously against the replacements' Initialized condition; failed or crashed actions must not have deleted candidates and must have taint / DisruptionReason / deletion mark removed within 5 fault-free reconciles; no node in two commands. evaluations = executions; non-trivial = scenarios in which a command was started; distinct by (mode, reason, #replacements, #candidates, success).",
+		Rule:  "each case = one scenario (cluster grown through the real pipeline; drift with pods / underutilised / mixed so that replace and delete commands arise) + orchestration script (queue reconciles interleaved in PRNG order with the replacements being launched, registered and initialised by the real lifecycle controller and the kubelet actor; modes: normal, a replacement vanishes, replacements stall past the retry deadline, replacements initialise only after the deadline). The scenario runs once fault-free to count K API + provider calls from the round that starts the command to the end of the script, then once per k (stride 2 in quick) and error kind {500, 409, (404), crash+restart}. Monitors: candidate NodeClaim deletes by the orchestration queue judged synchronously against the replacements' Initialized condition; failed or crashed actions must not have deleted candidates and must have taint / DisruptionReason / deletion mark removed within 5 fault-free reconciles; no node in two commands. evaluations = executions; non-trivial = scenarios in which a command was started; distinct by (mode, reason, #replacements, #candidates, success).",
 		Cases: cases, Run: run,
 		MinObserved: map[string]int{"scenarios_with_command": 8, "candidate_deletes_observed": 50, "rollback_checks": 30},
 	})
